@@ -1,4 +1,5 @@
 import CJ.Model.Registrar
+import CJ.Gen.C12Wrapper
 import CJ.Drv.Util
 /-! Driver for the registrar model (C12).
 
@@ -10,7 +11,15 @@ import CJ.Drv.Util
 * ext = `sel4,sel6,transportKnown,parseOk,ovSel,unmarshal,port,pctDraw,uNum,uDen,hostDraw,sendOk`
   sel4 = `e` | `n` | `addr:randPort`; sel6 = `e` | `hex:randPort`; ovSel = `-` | `e` | `id~prefixhex~flush`;
   unmarshal = `e` | `id:prefixhex:flush:randomize`; port = `e` | n
-Answer: `ok|C=<resp>|F=<resp>|S=<resp>|src=<n>|addr=<hex>` (resp = `v4,v6,port,params`), `err <kind>`, `panic <where>`.
+Answer: `ok|C=<resp>|F=<resp>|S=<signed>|src=<n>|addr=<hex>|keep=<secret><payload>` (resp = `v4,v6,port,params`;
+signed = `-` both RegRespBytes and RegRespSignature absent / the response they carry if they are the registrar's
+own over one response / `BADSIG` anything else, e.g. bytes supplied by the client), `err <kind>`, `panic <where>`.
+The wrapper stage runs with the facts regenerated from the code (`CJ.Gen.c12Wrapper`).
+`uni|<cfg>|<req>|<regMethod>|<clientAddr>|<sendOk>` → the wrapper forwarded by `RegisterUnidirectional`
+(`ok|F=…|S=…|src=…|addr=…|keep=…`) or `err`.
+`station|<v6>|<disable>|<clientParams>|<dC>|<dR>|<src>|<rr>`: `NewRegistrationC2SWrapper` for one family;
+dC / dR = `f` | `4:<addr>:<port>` | `r:<hex>:<port>` (the station's own derivation with the client's / the
+response's parameters), src = `i` | `4` | `6`, rr = `-` | `v4,v6,port,params` → `ok|<addr>|<port>|<params>` or `reject <why>`.
 `choose|w,w,…|a|b` → index chosen by the weighted choice or `-`. -/
 namespace CJ.Drv.Registrar
 open CJ.Registrar CJ.Drv
@@ -117,17 +126,67 @@ def showParams : Option Params → String
 def showResp (r : Resp) : String :=
   joinWith "," [showOpt toString r.v4, showOpt id r.v6, showOpt toString r.port, showParams r.params]
 
+def showSigned (f : Fwd) : String :=
+  match f.respBytes, f.respSig with
+  | .absent, .absent => "-"
+  | .registrar r, .registrar r' => if r = r' then showResp r else "BADSIG"
+  | _, _ => "BADSIG"
+
+def showFwd (f : Fwd) : List String :=
+  ["F=" ++ showOpt showResp f.resp, "S=" ++ showSigned f, s!"src={f.source}", "addr=" ++ showOpt id f.addr,
+   "keep=" ++ showBool f.secretKept ++ showBool f.payloadKept]
+
 def showOutcome : Outcome → String
   | .err k => "err " ++ k
   | .panic w => "panic " ++ w
-  | .ok c f => joinWith "|" ["ok", "C=" ++ showResp c, "F=" ++ showOpt showResp f.resp, "S=" ++ showOpt showResp f.signed,
-      s!"src={f.source}", "addr=" ++ showOpt id f.addr]
+  | .ok c f => joinWith "|" (["ok", "C=" ++ showResp c] ++ showFwd f)
 
 def handle (args : List String) : Option String :=
   match args with
   | [cfg, req, ext, m, a] => do
-    let out := registerBidirectional (← parseCfg cfg) (← parseReq req) (← parseExt ext) (← m.toNat?) (← optField a some)
+    let out := registerBidirectional CJ.Gen.c12Wrapper (← parseCfg cfg) (← parseReq req) (← parseExt ext) (← m.toNat?)
+      (← optField a some)
     some (showOutcome out)
+  | _ => none
+
+def handleUni (args : List String) : Option String :=
+  match args with
+  | [cfg, req, m, a, send] => do
+    match registerUnidirectional CJ.Gen.c12Wrapper (← parseCfg cfg) (← parseReq req) (← m.toNat?) (← optField a some)
+        (← parseBool send) with
+    | none => some "err"
+    | some f => some (joinWith "|" ("ok" :: showFwd f))
+  | _ => none
+
+def parseRespFull (s : String) : Option (Option Resp) :=
+  if s == "-" then some none else
+  match s.splitOn "," with
+  | [a, b, p, ps] => do
+    some (some { v4 := ← optField a (·.toNat?), v6 := ← optField b some, port := ← optField p (·.toNat?),
+                 params := ← parseParams ps })
+  | _ => none
+
+def parseDerived (s : String) : Option Derived :=
+  if s == "f" then some .fail else
+  match s.splitOn ":" with
+  | ["4", a, p] => do some (.ok (.v4 (← a.toNat?)) (← p.toNat?))
+  | ["r", h, p] => do some (.ok (.raw h) (← p.toNat?))
+  | _ => none
+
+def parseKind (s : String) : Option IPKind :=
+  if s == "i" then some .invalid else if s == "4" then some .v4 else if s == "6" then some .v6 else none
+
+def showAddr : Addr → String
+  | .v4 a => s!"4:{a}"
+  | .raw h => "r:" ++ h
+
+def handleStation (args : List String) : Option String :=
+  match args with
+  | [v6, dis, cp, dC, dR, src, rr] => do
+    match stationApply (← parseBool v6) (← parseBool dis) (← parseParams cp) (← parseDerived dC) (← parseDerived dR)
+        (← parseKind src) (← parseRespFull rr) with
+    | .reject why => some ("reject " ++ why)
+    | .ok ph port ps => some (joinWith "|" ["ok", showAddr ph, toString port, showParams ps])
   | _ => none
 
 def handleChoose (args : List String) : Option String :=
